@@ -20,6 +20,9 @@ inductive Described3 : Comp → Bool → Prop
   | dtcConst (l : DtcLeaf) (supplied : Bool) : l.ok → Described3 (l.constComp supplied) false
   | convLeaf (o : Obj) (dop : Dop) (sup val : PVal) (i : IVal) : o.ok → o.inRange i → ConvOk dop o.dct sup val i →
       Described3 (Comp.ofConvLeaf o dop sup val i) false
+  | convPhysConst (o : Obj) (dop : Dop) (c val : PVal) (i : IVal) (supplied : Bool) : o.ok → o.inRange i →
+      ConvOk dop o.dct c val i → pvalEq c c = true → pvalEq val c = true →
+      Described3 (Comp.ofConvPhysConst o dop c val i supplied) false
   | struct (name : String) (bp : Option Nat) (bso : Option Nat) (ms : List MComp) :
       (∀ m ∈ ms, Described3 m.c m.mid) → Comps.namesOk (MComps.cs ms) → Comps.eopLast (MComps.cs ms) →
       sizeSide bso (MComps.cs ms) →
@@ -70,6 +73,8 @@ theorem Described3.ok {g : Comp} {mid : Bool} (h : Described3 g mid) : (∀ P, g
   | dtcConst l b hl => exact ⟨fun P => (l.constComp_ok hl b).toM _ P, l.constComp_endOk b⟩
   | convLeaf o dop sup val i ho hr hc =>
     exact ⟨fun P => (Comp.ofConvLeaf_ok o dop sup val i ho hr hc).toM _ P, Comp.ofConvLeaf_endOk o dop sup val i⟩
+  | convPhysConst o dop c val i b ho hr hc h1 h2 =>
+    exact ⟨fun P => (Comp.ofConvPhysConst_ok o dop c val i b ho hr hc h1 h2).toM _ P, Comp.ofConvPhysConst_endOk o dop c val i b⟩
   | struct name bp bso ms _ hn hlast hsz ih =>
     have hok := MComps.okAll_of_forall (fun _ => True) ms (fun m hm => (ih m hm).1 _)
     have hend : Comps.endOkAll (MComps.cs ms) := Comps.endOkAll_of_forall _ (fun g hg => by
